@@ -78,6 +78,16 @@ struct TextGreater
     template <class A> bool operator()(const A &a, const A &b) const { return std::to_string(unbox(a)) > std::to_string(unbox(b)); }
 };
 
+// a STATEFUL comparator: the direction is a member, the default-constructed object orders ascending;
+// only `flat_set(const Compare &)` / `std::set(const Compare &)` can make a descending set of this type
+struct Dir
+{
+    bool desc = false;
+    Dir() {}
+    explicit Dir(bool d) : desc(d) {}
+    template <class A> bool operator()(const A &a, const A &b) const { return desc ? unbox(b) < unbox(a) : unbox(a) < unbox(b); }
+};
+
 struct FlatBase
 {
     virtual ~FlatBase() {}
@@ -93,7 +103,7 @@ template <class Map, class Set, class Val, class Key, class MK = int> struct Fla
     static MK mk(int v) { return MkKey<MK>::of(v); }
     static Key sk(int v) { return MkKey<Key>::of(v); }
 
-    void reset()
+    virtual void reset()
     {
         fm = Map();
         fs = Set();
